@@ -478,9 +478,9 @@ impl Check for C06 {
             },
             assumptions: vec![
                 "the thread-pool dimension uses the rayon stand-in in its default (single job) schedule; schedules are C09's".into(),
-                "render crashes are deferred to C11".into(),
+                "a render call that panics (or kills the process) instead of returning an image is reported here: C11 enumerates evaluator entry points, not the renderer, and the property quantifies over the configurations this check enumerates".into(),
             ],
-            crash_policy: CrashPolicy::Deferred,
+            crash_policy: CrashPolicy::Violation,
             vacuity: vec![("pixels_checked", 100000), ("default_tile_size_renders", 100), ("nan_payload_renders", 10000)],
             transitions_counter: "evals",
             nontrivial_counter: "nontrivial",
